@@ -7,6 +7,7 @@ import CallbagModel.Inv.FromIterFull
 import CallbagModel.Inv.MergeFull
 import CallbagModel.Inv.RelayFull
 import CallbagModel.Inv.ShareFull
+import CallbagModel.Inv.ShareWeak
 import CallbagModel.Inv.TakeFull
 /-!
 # C04 — no orphaned or doubly-terminated upstream: operators are conformant sinks: property theorems (statements only; the invariants are in `Inv/*Full.lean`)
@@ -64,6 +65,13 @@ theorem C04_merge {α : Type} (n : Nat) :
 theorem C04_share_partial {α : Type} :
     ∀ s, SReachR (Share.machine α) noNestedFanout s → SafeFor 4 s :=
   fun s hs => (ShareFull.share_safe_partial s hs).safeFor 4
+/-- `share`, EVERY conformant environment (nested fan-out included): the protocol part of C04 holds — no upstream is subscribed twice or
+after the output is over, no Pull / Terminate is sent to an upstream that is not live: the only phase-level violations are late
+deliveries (C02/C03). -/
+theorem C04_share_protocol {α : Type} :
+    ∀ s, SReach (Share.machine α) s → ∀ v ∈ s.g.ph.viols, (∃ k, v = Viol.afterTerm k) ∨ (∃ k, v = Viol.afterDispose k) :=
+  fun s hs => (ShareWeak.share_safe_weak s hs).1
+
 /-- `combine!`: the full statement is FALSE (known findings KF2, KF3: the sink's Pull / Terminate / Error are also sent to members that
 have ended, and a Pull broadcast continues after a nested disposal; witnesses in `Thm/Counterexamples.lean`). What is proved: those
 messages to non-live members are the ONLY phase-level violations — every member is subscribed exactly once and never after the output
